@@ -149,6 +149,28 @@ struct Gen<'a> {
     units: &'a Units,
     dims: Vec<&'a String>,
     ctx: &'a numbat::Context,
+    /// pairs of dimension classes (d1, d2, product?) whose product / quotient is again the dimension of a named
+    /// unit (`N * m` = energy): results the registry-based simplification may rename
+    named_results: Vec<(String, String, bool)>,
+}
+
+fn named_results(units: &Units, dims: &[&String]) -> Vec<(String, String, bool)> {
+    let vec_of = |d: &String| -> Dim { units.oracle_dimension(&[units.factor(units.by_dim[d][0], (false, 0), 1, 1)]) };
+    let vs: Vec<(String, Dim)> = dims.iter().map(|d| ((*d).clone(), vec_of(d))).collect();
+    let mut out = Vec::new();
+    for (d1, v1) in &vs {
+        for (d2, v2) in &vs {
+            for mul in [true, false] {
+                let r = dim_mul(v1, v2, if mul { 1 } else { -1 });
+                let mut r = r;
+                r.retain(|_, e| e.0 != 0);
+                if !r.is_empty() && !v1.is_empty() && !v2.is_empty() && vs.iter().any(|(_, v)| *v == r) {
+                    out.push((d1.clone(), d2.clone(), mul));
+                }
+            }
+        }
+    }
+    out
 }
 
 impl<'a> Gen<'a> {
@@ -213,6 +235,37 @@ impl<'a> Gen<'a> {
                 E::Pow(Box::new(self.any(rng, depth - 1)), n, d)
             }
             7 => E::Neg(Box::new(self.any(rng, depth - 1))),
+            9 if !self.named_results.is_empty() && rng.chance(1, 2) => {
+                // a product / quotient of two prefixed leaves whose dimension has a named unit (`pN * nm`): what the
+                // registry-based simplification of displayed results renames
+                let (d1, d2, mul) = rng.pick(&self.named_results).clone();
+                let a = E::Mul(Box::new(E::Num(self.number(rng))), Box::new(self.leaf_unit(rng, &d1)));
+                let b = self.leaf_unit(rng, &d2);
+                if mul { E::Mul(Box::new(a), Box::new(b)) } else { E::Div(Box::new(a), Box::new(b)) }
+            }
+            8 => {
+                // sum / difference of equal powers of two leaves of one dimension, the second one often the same
+                // unit with another prefix (`3 m^2 + 5 cm^2`)
+                let d = *rng.pick(&self.dims);
+                let (n, dd) = *rng.pick(&[(2, 1), (3, 1), (-1, 1), (-2, 1), (1, 2)]);
+                let e = n as f64 / dd as f64;
+                if numbat::Context::verif_rational_from_f64(e.to_bits()) != Some((n, dd)) {
+                    return self.any(rng, depth - 1);
+                }
+                let a = self.leaf_unit(rng, d);
+                let b = match (&a, rng.chance(2, 3)) {
+                    (E::Unit(i, p, _), true) => {
+                        let ps = self.units.prefixes(*i);
+                        let q = *rng.pick(&ps);
+                        let sp = self.units.spellings(*i, q);
+                        if sp.is_empty() || q == *p { self.leaf_unit(rng, d) } else { E::Unit(*i, q, rng.pick(&sp).clone()) }
+                    }
+                    _ => self.leaf_unit(rng, d),
+                };
+                let pa = E::Mul(Box::new(E::Num(self.number(rng))), Box::new(E::Pow(Box::new(a), n, dd)));
+                let pb = E::Mul(Box::new(E::Num(self.number(rng))), Box::new(E::Pow(Box::new(b), n, dd)));
+                if rng.chance(1, 2) { E::Add(Box::new(pa), Box::new(pb)) } else { E::Sub(Box::new(pa), Box::new(pb)) }
+            }
             _ => {
                 let d = *rng.pick(&self.dims);
                 self.of_dim(rng, d, depth)
@@ -274,7 +327,9 @@ fn run_expr_inner(g: &Gen, out: &mut Out, e: &E, from_text: Option<&str>, emit: 
             if got_dim != dim && v != 0.0 {
                 complaint = Some(format!("result unit {} has dimension {:?}, dimensional analysis gives {:?}", unit, got_dim, dim));
             }
-            let phys = v * units.oracle_factor(&fs);
+            // the oracle's own conversion factor must be representable (`zSt^18` is 1e-450)
+            let of = units.oracle_factor(&fs);
+            let phys = if of.is_normal() { v * of } else { f64::NAN };
             if want.is_finite() && phys.is_finite() && want.abs() < 1e280 && (want == 0.0 || want.abs() > 1e-280) && err.is_finite() {
                 if emit { out.count("oracle_value_checked"); }
                 let tol = 64.0 * err + 64.0 * f64::EPSILON * want.abs() + 1e-300;
@@ -289,6 +344,38 @@ fn run_expr_inner(g: &Gen, out: &mut Out, e: &E, from_text: Option<&str>, emit: 
         }
     } else if emit {
         out.count(&format!("result_{}", ans.replace(' ', "_")));
+    }
+    // the same expression as a statement: the *displayed* result (after numbat's automatic simplification) must
+    // denote the same quantity
+    if complaint.is_none() && parse_answer(&ans).is_some() {
+        if let Some((want, err, dim)) = e.oracle(units) {
+            let mut c2 = g.ctx.clone();
+            let shown = match catch(std::panic::AssertUnwindSafe(|| c2.interpret(&src, CodeSource::Internal))) {
+                Ok(Ok((_, numbat::InterpreterResult::Value(v)))) => numbat::verif::c03::describe_value(&v).map(|d| canon_nan(&show_quantity(&d))),
+                Err(p) => Some(format!("panic {}", p)),
+                _ => None,
+            };
+            if let Some(shown) = shown {
+                if shown.starts_with("panic") {
+                    complaint = Some(format!("evaluating the expression as a statement: {}", shown));
+                } else if let Some((v, unit)) = parse_answer(&shown) {
+                    if let Some(fs) = parse_unit(&unit) {
+                        if emit { out.count("displayed_result_checked"); }
+                        let got_dim = units.oracle_dimension(&fs);
+                        let of = units.oracle_factor(&fs);
+                        let phys = if of.is_normal() { v * of } else { f64::NAN };
+                        if got_dim != dim && v != 0.0 {
+                            complaint = Some(format!("displayed result {} has dimension {:?}, dimensional analysis gives {:?}", shown, got_dim, dim));
+                        } else if want.is_finite() && phys.is_finite() && want.abs() < 1e280 && (want == 0.0 || want.abs() > 1e-280) && err.is_finite() {
+                            let tol = 64.0 * err + 256.0 * f64::EPSILON * want.abs() + 1e-300;
+                            if (phys - want).abs() > tol {
+                                complaint = Some(format!("displayed result {} = {:e} (in base units) differs from dimensional arithmetic {:e} (tolerance {:e})", shown, phys, want, tol));
+                            }
+                        }
+                    }
+                }
+            }
+        }
     }
     complaint.map(|c| (key, input, c))
 }
@@ -360,7 +447,9 @@ fn main() {
     let units = Units::load(&ctx);
     units.emit(&mut out);
     let dims: Vec<&String> = units.by_dim.keys().collect();
-    let g = Gen { units: &units, dims, ctx: &ctx };
+    let named = named_results(&units, &dims);
+    out.count_n("generator_named_result_pairs", named.len() as u64);
+    let g = Gen { units: &units, dims, ctx: &ctx, named_results: named };
     let run_file = |p: &std::path::Path, out: &mut Out| {
         for l in read_lines(p) {
             if let Some(e) = parse_line(&units, &l) {
